@@ -11,6 +11,7 @@
  *   time:<t>                time(), clock_gettime() and gettimeofday() answer t
  *   perm:<dirname>=<code>   readdir on directories with that base name returns the sorted entries
  *                           permuted by the factorial-number-system code (0 = sorted); perm:*=<code> for all
+ *   permd:<dirname>=<code>  the same, but "." and ".." take part in the permutation (they are not kept in front)
  * classes: read pread write pwrite open close dup lseek trunc fsync unlink alloc mmap stat mk out
  * log (fd VERIF_ENV_LOGFD): "<class> <k> <fd> <requested> <returned> <errno> [OUT]" per call
  */
@@ -42,7 +43,7 @@ static int logfd = -1;
 static int inited;
 static char outpath[4096];
 static unsigned char is_out[4096];
-static struct { char name[256]; long code; } perms[32];
+static struct { char name[256]; long code; int dots; } perms[32];
 static int nperms;
 
 ssize_t __real_read(int, void *, size_t);
@@ -109,12 +110,13 @@ static void init(void)
 			if (colon) {
 				*colon = 0;
 				char *rest = colon + 1;
-				if (!strcmp(buf, "perm")) {
+				if (!strcmp(buf, "perm") || !strcmp(buf, "permd")) {
 					char *eq = strrchr(rest, '=');
 					if (eq && nperms < 32) {
 						*eq = 0;
 						snprintf(perms[nperms].name, sizeof(perms[nperms].name), "%s", rest);
 						perms[nperms].code = atol(eq + 1);
+						perms[nperms].dots = !strcmp(buf, "permd");
 						nperms++;
 					}
 				} else if (!strcmp(buf, "time")) {
@@ -428,19 +430,25 @@ static int cmp_ent(const void *a, const void *b)
 	return strcmp(((const struct dirent *)a)->d_name, ((const struct dirent *)b)->d_name);
 }
 
+static int perm_dots;
 static long perm_code_for(DIR *d)
 {
+	perm_dots = 0;
 	char link[64], path[4096];
 	snprintf(link, sizeof(link), "/proc/self/fd/%d", dirfd(d));
 	ssize_t n = readlink(link, path, sizeof(path) - 1);
 	const char *base = "";
 	if (n > 0) { path[n] = 0; base = strrchr(path, '/'); base = base ? base + 1 : path; }
 	for (int i = 0; i < nperms; ++i)
-		if (!strcmp(perms[i].name, base))
+		if (!strcmp(perms[i].name, base)) {
+			perm_dots = perms[i].dots;
 			return perms[i].code;
+		}
 	for (int i = 0; i < nperms; ++i)
-		if (!strcmp(perms[i].name, "*"))
+		if (!strcmp(perms[i].name, "*")) {
+			perm_dots = perms[i].dots;
 			return perms[i].code;
+		}
 	return -1;
 }
 
@@ -466,7 +474,7 @@ struct dirent *__wrap_readdir(DIR *d)
 		}
 		/* "." and ".." first, rest sorted then permuted */
 		int lo = 0;
-		for (int i = 0; i < n; ++i)
+		for (int i = 0; i < n && !perm_dots; ++i)
 			if (!strcmp(arr[i].d_name, ".") || !strcmp(arr[i].d_name, "..")) {
 				struct dirent t = arr[lo]; arr[lo] = arr[i]; arr[i] = t; lo++;
 			}
